@@ -121,7 +121,7 @@ class Case:
         return any(o.split()[0] in ("block", "blockb", "blocks", "blocksb", "data", "apply", "applyb", "enc", "dec",
                                     "encb", "decb", "oneshot", "oneshotb", "padenc", "paddec", "ksblock", "ksblocks",
                                     "applyblocks", "applyblocksb", "seek", "newslice", "debug", "E", "D", "backend", "applyblock", "applyblockb",
-                                    "ksdirect") for o in self.ops)
+                                    "ksdirect", "encio", "decio", "enciob", "deciob") for o in self.ops)
 
 
 class ExecError(Exception):
